@@ -88,26 +88,49 @@ def Store.flush (s : Store) : Store :=
 /-- reopen: novel tables become upstream (manifest), nothing else changes -/
 def Store.reopen (s : Store) : Store := { mem := [], novel := [], upstream := (s.flush).novel ++ s.upstream }
 
+/-- conjoin: the selected upstream tables are replaced by **one** table serving the concatenation of
+their chunks (duplicates kept, `planTableConjoin`); it is listed first among the upstream tables, the
+unselected ones keep their order (`conjoinOperation.updateManifest`) -/
+def Store.conjoin (s : Store) (sel : Source → Bool) : Store :=
+  { s with upstream := (s.upstream.filter sel).flatten :: s.upstream.filter (fun t => !sel t) }
+
+/-- everything the store holds anywhere, in read order -/
+def Store.entries (s : Store) : List (Addr × Bytes) := (s.mem :: (s.novel ++ s.upstream)).flatten
+
+/-- garbage collection with keep-set `keep` (the marked addresses): memtable flushed, every table
+replaced by one table serving exactly the kept chunks (`markAndSweepChunks` + `swapTables`) -/
+def Store.gc (s : Store) (keep : Addr → Bool) : Store :=
+  { mem := [], novel := [], upstream := [s.entries.filter (fun e => keep e.1)] }
+
 inductive Op where
   | put (a : Addr) (d : Bytes)
   | commit
   | reopen
+  | conjoin (sel : Source → Bool)
+  | gc (keep : Addr → Bool)
 
 def Store.apply (s : Store) : Op → Store
   | .put a d => s.put a d
   | .commit => s.flush
   | .reopen => s.reopen
+  | .conjoin sel => s.conjoin sel
+  | .gc keep => s.gc keep
 
 def run (ops : List Op) : Store := ops.foldl Store.apply ⟨[], [], []⟩
 
-/-- every (address, bytes) pair a history wrote -/
+/-- every (address, bytes) pair a history wrote (collected or not) -/
 def written : List Op → List (Addr × Bytes)
   | [] => []
   | .put a d :: rest => (a, d) :: written rest
   | _ :: rest => written rest
 
-/-- everything the store holds anywhere, in read order -/
-def Store.entries (s : Store) : List (Addr × Bytes) := s.chain.flatten
+/-- the specification state: the pairs written **and not collected since** -/
+def liveStep (l : List (Addr × Bytes)) : Op → List (Addr × Bytes)
+  | .put a d => (a, d) :: l
+  | .gc keep => l.filter (fun e => keep e.1)
+  | _ => l
+
+def live (ops : List Op) : List (Addr × Bytes) := ops.foldl liveStep []
 
 /-- the abstract map: first binding in read order -/
 def Store.abs (s : Store) (a : Addr) : Option Bytes := s.entries.lookup a
